@@ -114,7 +114,7 @@ def run(vc, pid, tier, sets):
                     props.append("C08")
                 # C04 (BytesMut regions are exclusive and a write through one is never visible through another handle): an
                 # ordering or lifetime defect in a program over BytesMut halves, or one that produces / consumes a BytesMut
-                if pid == "C04" and ("C06" in props or "C05" in props) and any(o in v.get("desc", "") for o in ("MutHalves", "MutThirds", "MWrite", "MReserve", "MTryReclaim", "MGrow", "MIntoVec", "MUnsplit", "MFreeze", "TryIntoMut", "IntoMut")):
+                if pid == "C04" and ("C06" in props or "C05" in props) and any(o in v.get("desc", "") for o in ("MutHalves", "MutThirds", "MWrite", "MReserve", "MTryReclaim", "MGrow", "MIntoVec", "MUnsplit", "MFreeze", "MSplit", "TryIntoMut", "IntoMut")):
                     props.append("C04")
                 prop = pid if pid in props else props[0]
                 viols.append({"property": prop, "case": "loom:" + v.get("desc", "")[:200], "msg": "%s | program #%s %s" % (v["msg"], v["program"], v.get("desc", "")),
